@@ -1,5 +1,477 @@
-//! driver stub (VERIF_CMD=telemetry)
+//! C18 driver (VERIF_CMD=telemetry): one pass of the real `EventReader` over a set of event files, per case.
+//!
+//! Inputs : VERIF_SCRIPT = JSON {"events_dir": dir, "cases": [case...]},  VERIF_OUT = output directory.
+//!   case = {"id": str,
+//!           "files": [{"name": "0001.json", "raw": str | null,            // raw: written verbatim (unreadable file)
+//!                      "events": [{"level","message","version","task","pid","tid","op","ts"}]}],
+//!           "replies": ["ok"|"503"|"500"|"400"|"reset"|"close", ...],     // n-th telemetry POST gets replies[n]
+//!           "default_reply": "ok", "post_limit": N}
+//!   every text field is a recipe [[string, repeat], ...] (keeps scripts small for 64 KiB messages).
+//! The files are written with the repository's own `Event` type and `misc_helpers::json_write_to_file` (what
+//! `event_logger` does).  Mock hosts (std threads, this file) listen on the REAL endpoints 168.63.129.16:80 and
+//! 169.254.169.254:80 (the check runs us inside a private network namespace) and serve goal state, shared config
+//! and IMDS instance info; the telemetry endpoint records the raw body of every POST and answers as scripted.
+//! `EventReader::start` is the highest public entry (process_events_and_clean is private): it runs passes
+//! forever, so the pass is delimited by the mock host: the SECOND goal-state GET means the first pass is over
+//! (loop_reader went round) and the host thread cancels the reader's token.  The tokio clock is paused
+//! (`start_paused`): the 15 s back-offs and the inter-pass sleep auto-advance; no timer is pending while a socket
+//! operation is in flight (hyper_client has no time-outs), so auto-advance cannot fire during IO.
+//! Outputs: <out>/results.ndjson (one line per case: posts with body files, remaining files, termination),
+//!          <out>/<case>_p<k>.bin raw POSTed bodies, <out>/trace.ndjson (panic records).
+use super::env;
+use crate::shared_state::agent_status_wrapper::AgentStatusSharedState;
+use crate::shared_state::key_keeper_wrapper::KeyKeeperSharedState;
+use crate::shared_state::telemetry_wrapper::TelemetrySharedState;
+use crate::telemetry::event_reader::EventReader;
+use crate::verif;
+use once_cell::sync::Lazy;
+use proxy_agent_shared::misc_helpers;
+use proxy_agent_shared::telemetry::Event;
+use serde_json::{json, Value};
+use std::io::{Read, Write};
+use std::net::{TcpListener, TcpStream};
+use std::os::fd::AsRawFd;
+use std::path::PathBuf;
+use std::sync::Mutex;
+use std::time::Duration;
+use tokio_util::sync::CancellationToken;
+
+const WS: &str = "168.63.129.16:80";
+const IMDS: &str = "169.254.169.254:80";
+
+#[derive(Default)]
+struct CaseState {
+    id: String,
+    out_dir: PathBuf,
+    replies: Vec<String>,
+    default_reply: String,
+    post_limit: usize,
+    posts: Vec<Value>,
+    last_body: Option<Vec<u8>>,
+    goalstate_gets: u32,
+    config_gets: u32,
+    imds_gets: u32,
+    other: Vec<String>,
+    token: Option<CancellationToken>,
+    reason: String,
+    started: Option<std::time::Instant>,
+}
+
+static STATE: Lazy<Mutex<CaseState>> = Lazy::new(|| Mutex::new(CaseState::default()));
+static RESULTS: Lazy<Mutex<Option<std::fs::File>>> = Lazy::new(|| Mutex::new(None));
+
+fn write_result(line: &Value) {
+    if let Some(f) = RESULTS.lock().unwrap().as_mut() {
+        let _ = writeln!(f, "{}", line);
+        let _ = f.flush();
+    }
+}
+
+fn find(hay: &[u8], needle: &[u8], from: usize) -> Option<usize> {
+    if hay.len() < needle.len() || from > hay.len() - needle.len() {
+        return None;
+    }
+    (from..=hay.len() - needle.len()).find(|&i| &hay[i..i + needle.len()] == needle)
+}
+
+struct Req {
+    method: String,
+    target: String,
+    headers: Vec<(String, String)>,
+    body: Vec<u8>,
+}
+
+/// One HTTP/1.1 request from the stream (content-length or chunked framing). None on EOF / error.
+fn read_request(s: &mut TcpStream, buf: &mut Vec<u8>) -> Option<Req> {
+    let mut tmp = vec![0u8; 65536];
+    loop {
+        if let Some(he) = find(buf, b"\r\n\r\n", 0) {
+            let head = String::from_utf8_lossy(&buf[..he]).to_string();
+            let mut lines = head.split("\r\n");
+            let first = lines.next().unwrap_or("");
+            let mut it = first.splitn(3, ' ');
+            let method = it.next().unwrap_or("").to_string();
+            let target = it.next().unwrap_or("").to_string();
+            let mut headers = Vec::new();
+            for l in lines {
+                if let Some(ci) = l.find(':') {
+                    headers.push((l[..ci].trim().to_ascii_lowercase(), l[ci + 1..].trim().to_string()));
+                }
+            }
+            let get = |n: &str| headers.iter().find(|(k, _)| k == n).map(|(_, v)| v.clone());
+            let start = he + 4;
+            let chunked = get("transfer-encoding").map(|v| v.to_ascii_lowercase().contains("chunked")).unwrap_or(false);
+            if chunked {
+                // decode what is there; need the terminating 0-chunk
+                let mut pos = start;
+                let mut body = Vec::new();
+                let mut complete = false;
+                loop {
+                    let le = match find(buf, b"\r\n", pos) {
+                        Some(i) => i,
+                        None => break,
+                    };
+                    let szs = String::from_utf8_lossy(&buf[pos..le]).to_string();
+                    let n = usize::from_str_radix(szs.split(';').next().unwrap_or("").trim(), 16).unwrap_or(0);
+                    if n == 0 {
+                        if let Some(e) = find(buf, b"\r\n", le + 2) {
+                            let _ = e;
+                            pos = le + 4;
+                            complete = true;
+                        }
+                        break;
+                    }
+                    if buf.len() < le + 2 + n + 2 {
+                        break;
+                    }
+                    body.extend_from_slice(&buf[le + 2..le + 2 + n]);
+                    pos = le + 2 + n + 2;
+                }
+                if complete {
+                    let pos = pos.min(buf.len());
+                    buf.drain(..pos);
+                    return Some(Req { method, target, headers, body });
+                }
+            } else {
+                let cl: usize = get("content-length").and_then(|v| v.parse().ok()).unwrap_or(0);
+                if buf.len() >= start + cl {
+                    let body = buf[start..start + cl].to_vec();
+                    buf.drain(..start + cl);
+                    return Some(Req { method, target, headers, body });
+                }
+            }
+        }
+        match s.read(&mut tmp) {
+            Ok(0) => return None,
+            Ok(n) => buf.extend_from_slice(&tmp[..n]),
+            Err(_) => return None,
+        }
+    }
+}
+
+fn respond(s: &mut TcpStream, status: u16, ctype: &str, body: &[u8]) -> bool {
+    let head = format!(
+        "HTTP/1.1 {} X\r\ncontent-type: {}\r\ncontent-length: {}\r\n\r\n",
+        status,
+        ctype,
+        body.len()
+    );
+    s.write_all(head.as_bytes()).and_then(|_| s.write_all(body)).and_then(|_| s.flush()).is_ok()
+}
+
+fn set_linger0(s: &TcpStream) {
+    let l = libc::linger { l_onoff: 1, l_linger: 0 };
+    unsafe {
+        libc::setsockopt(
+            s.as_raw_fd(),
+            libc::SOL_SOCKET,
+            libc::SO_LINGER,
+            &l as *const _ as *const libc::c_void,
+            std::mem::size_of::<libc::linger>() as libc::socklen_t,
+        );
+    }
+}
+
+const GOAL_STATE: &str = r#"<?xml version="1.0" encoding="utf-8"?>
+<GoalState xmlns:xsi="http://www.w3.org/2001/XMLSchema-instance" xsi:noNamespaceSchemaLocation="goalstate10.xsd">
+  <Version>2015-04-05</Version>
+  <Incarnation>16</Incarnation>
+  <Machine>
+    <ExpectedState>Started</ExpectedState>
+    <StopRolesDeadlineHint>300000</StopRolesDeadlineHint>
+    <LBProbePorts><Port>16001</Port></LBProbePorts>
+    <ExpectHealthReport>TRUE</ExpectHealthReport>
+  </Machine>
+  <Container>
+    <ContainerId>374188df-b0a2-456a-a7b2-83f28b18d36f</ContainerId>
+    <RoleInstanceList>
+      <RoleInstance>
+        <InstanceId>verif.Worker_IN_0</InstanceId>
+        <State>Started</State>
+        <Configuration>
+          <HostingEnvironmentConfig>http://168.63.129.16:80/machine/c/i?comp=config&amp;type=hostingEnvironmentConfig&amp;incarnation=16</HostingEnvironmentConfig>
+          <SharedConfig>http://168.63.129.16:80/machine/c/i?comp=config&amp;type=sharedConfig&amp;incarnation=16</SharedConfig>
+          <ExtensionsConfig>http://168.63.129.16:80/machine/c/i?comp=config&amp;type=extensionsConfig&amp;incarnation=16</ExtensionsConfig>
+          <FullConfig>http://168.63.129.16:80/machine/c/i?comp=config&amp;type=fullConfig&amp;incarnation=16</FullConfig>
+          <Certificates>http://168.63.129.16:80/machine/c/i?comp=certificates&amp;incarnation=16</Certificates>
+          <ConfigName>verif.1.xml</ConfigName>
+        </Configuration>
+      </RoleInstance>
+    </RoleInstanceList>
+  </Container>
+</GoalState>"#;
+
+const SHARED_CONFIG: &str = r#"<?xml version="1.0" encoding="utf-8"?>
+<SharedConfig version="1.0.0.0" goalStateIncarnation="16">
+  <Deployment name="verif-deployment" guid="{25a2c1a1-2986-4d1c-bd37-6abe8571218d}" incarnation="132" isNonCancellableTopologyChangeEnabled="false">
+    <Service name="Verif.Cloud" guid="{00000000-0000-0000-0000-000000000000}" />
+  </Deployment>
+  <Incarnation number="1" instance="verif.Worker_IN_0" guid="{b0b40fde-461e-461b-a451-af58347321a9}" />
+  <Role guid="{953935f8-9317-74e0-4236-7854486dd013}" name="verif.Worker" settleTimeSeconds="0" />
+  <Instances>
+    <Instance id="verif.Worker_IN_0" address="10.1.64.6" />
+  </Instances>
+</SharedConfig>"#;
+
+const INSTANCE_INFO: &str = r#"{"compute": {"location": "westus", "name": "verifvm", "offer": "VerifOffer",
+ "resourceGroupName": "verif-rg", "subscriptionId": "aaaaaaaa-bbbb-cccc-dddd-eeeeeeeeeeee",
+ "vmId": "02aab8a4-74ef-476e-8182-f6d2ba4166a6", "vmSize": "Standard_D2s_v3"}}"#;
+
+fn host_conn(host: &'static str, mut s: TcpStream) {
+    let _ = s.set_read_timeout(Some(Duration::from_secs(30)));
+    let _ = s.set_nodelay(true);
+    let mut buf = Vec::new();
+    while let Some(req) = read_request(&mut s, &mut buf) {
+        let t = req.target.clone();
+        if host == "imds" {
+            STATE.lock().unwrap().imds_gets += 1;
+            if !respond(&mut s, 200, "application/json; charset=utf-8", INSTANCE_INFO.as_bytes()) {
+                return;
+            }
+            continue;
+        }
+        if req.method == "GET" && t.contains("comp=goalstate") {
+            let over = {
+                let mut st = STATE.lock().unwrap();
+                st.goalstate_gets += 1;
+                if st.goalstate_gets >= 2 {
+                    if st.reason.is_empty() {
+                        st.reason = "pass-complete".to_string();
+                    }
+                    if let Some(tk) = st.token.as_ref() {
+                        tk.cancel();
+                    }
+                    true
+                } else {
+                    false
+                }
+            };
+            if over {
+                // the pass is over and the reader has been cancelled: no answer
+                return;
+            }
+            if !respond(&mut s, 200, "text/xml; charset=utf-8", GOAL_STATE.as_bytes()) {
+                return;
+            }
+        } else if req.method == "GET" && t.contains("type=sharedConfig") {
+            STATE.lock().unwrap().config_gets += 1;
+            if !respond(&mut s, 200, "text/xml; charset=utf-8", SHARED_CONFIG.as_bytes()) {
+                return;
+            }
+        } else if req.method == "POST" && t.contains("comp=telemetrydata") {
+            let reply = {
+                let mut st = STATE.lock().unwrap();
+                let k = st.posts.len();
+                let same = st.last_body.as_deref() == Some(&req.body[..]);
+                let mut reply = st.replies.get(k).cloned().unwrap_or_else(|| st.default_reply.clone());
+                let mut file = Value::Null;
+                if !same {
+                    let name = format!("{}_p{}.bin", st.id, k);
+                    let _ = std::fs::write(st.out_dir.join(&name), &req.body);
+                    file = json!(name);
+                }
+                if k + 1 >= st.post_limit {
+                    // more POSTs than any terminating reader could need: stop the experiment here
+                    st.reason = "post-limit".to_string();
+                    if let Some(tk) = st.token.as_ref() {
+                        tk.cancel();
+                    }
+                    reply = "503".to_string();
+                }
+                let hdrs: serde_json::Map<String, Value> =
+                    req.headers.iter().map(|(k, v)| (k.clone(), json!(v))).collect();
+                let real_ms = st.started.map(|x| x.elapsed().as_millis() as u64).unwrap_or(0);
+                st.posts.push(json!({"n": k, "len": req.body.len(), "same": same, "file": file, "reply": reply,
+                    "target": t, "headers": hdrs,
+                    "real_ms": real_ms}));
+                st.last_body = Some(req.body);
+                reply
+            };
+            match reply.as_str() {
+                "ok" => {
+                    if !respond(&mut s, 200, "text/plain", b"") {
+                        return;
+                    }
+                }
+                "reset" => {
+                    set_linger0(&s);
+                    return; // drop => RST
+                }
+                "close" => {
+                    let _ = s.shutdown(std::net::Shutdown::Both);
+                    return;
+                }
+                code => {
+                    let c: u16 = code.parse().unwrap_or(503);
+                    if !respond(&mut s, c, "text/plain", b"scripted failure") {
+                        return;
+                    }
+                }
+            }
+        } else {
+            STATE.lock().unwrap().other.push(format!("{} {}", req.method, t));
+            if !respond(&mut s, 404, "text/plain", b"") {
+                return;
+            }
+        }
+    }
+}
+
+fn start_host(host: &'static str, addr: &str) -> Result<(), String> {
+    let l = TcpListener::bind(addr).map_err(|e| format!("bind {}: {}", addr, e))?;
+    std::thread::Builder::new()
+        .name(format!("host-{}", host))
+        .spawn(move || {
+            for s in l.incoming().flatten() {
+                std::thread::spawn(move || host_conn(host, s));
+            }
+        })
+        .unwrap();
+    Ok(())
+}
+
+fn expand(v: &Value) -> String {
+    match v {
+        Value::String(s) => s.clone(),
+        Value::Array(a) => {
+            let mut out = String::new();
+            for seg in a {
+                let s = seg[0].as_str().unwrap_or("");
+                let n = seg[1].as_u64().unwrap_or(1) as usize;
+                out.reserve(s.len() * n);
+                for _ in 0..n {
+                    out.push_str(s);
+                }
+            }
+            out
+        }
+        _ => String::new(),
+    }
+}
+
+fn list_dir(dir: &PathBuf) -> Vec<String> {
+    let mut v: Vec<String> = std::fs::read_dir(dir)
+        .map(|rd| rd.flatten().map(|e| e.file_name().to_string_lossy().to_string()).collect())
+        .unwrap_or_default();
+    v.sort();
+    v
+}
+
 pub fn main() -> i32 {
-    eprintln!("not built yet");
-    2
+    let script: Value = serde_json::from_str(&std::fs::read_to_string(env("VERIF_SCRIPT")).expect("script")).expect("script json");
+    let out_dir = PathBuf::from(env("VERIF_OUT"));
+    let _ = std::fs::create_dir_all(&out_dir);
+    verif::trace::set_file(out_dir.join("trace.ndjson").to_str().unwrap());
+    let events_dir = PathBuf::from(script["events_dir"].as_str().expect("events_dir"));
+    if let Err(e) = start_host("ws", WS).and_then(|_| start_host("imds", IMDS)) {
+        eprintln!("harness: {}", e);
+        return 2;
+    }
+    *RESULTS.lock().unwrap() = Some(std::fs::File::create(out_dir.join("results.ndjson")).expect("results"));
+    let wall_limit = Duration::from_secs(script["case_wall_limit_s"].as_u64().unwrap_or(30));
+    let wd_dir = events_dir.clone();
+    // watchdog: with the clock paused a case takes milliseconds; one that is still running after the wall-clock
+    // limit (hundreds of times the normal duration) without reaching the POST bound is recorded as data
+    // (reason "wall-limit", not terminated) and the process ends; the check re-executes it before believing it.
+    std::thread::spawn(move || loop {
+        std::thread::sleep(Duration::from_millis(200));
+        let st = STATE.lock().unwrap();
+        if let Some(t0) = st.started {
+            if t0.elapsed() > wall_limit {
+                eprintln!("harness: case {} exceeded the wall-clock limit (posts so far: {})", st.id, st.posts.len());
+                verif::trace::emit(json!({"e": "Watchdog", "case": st.id, "posts": st.posts.len()}));
+                verif::trace::flush();
+                write_result(&json!({"case": st.id, "written": [], "before": [], "remaining": list_dir(&wd_dir),
+                    "posts": st.posts, "reason": "wall-limit", "terminated": false, "virtual_ms": 0,
+                    "goalstate_gets": st.goalstate_gets, "config_gets": st.config_gets, "imds_gets": st.imds_gets,
+                    "other": st.other}));
+                std::process::exit(0);
+            }
+        }
+    });
+    for case in script["cases"].as_array().cloned().unwrap_or_default() {
+        let id = case["id"].as_str().unwrap_or("case").to_string();
+        let _ = std::fs::remove_dir_all(&events_dir);
+        std::fs::create_dir_all(&events_dir).expect("events dir");
+        let mut written = Vec::new();
+        for f in case["files"].as_array().cloned().unwrap_or_default() {
+            let path = events_dir.join(f["name"].as_str().expect("file name"));
+            if let Some(raw) = f["raw"].as_str() {
+                std::fs::write(&path, raw.as_bytes()).expect("write raw");
+            } else {
+                let events: Vec<Event> = f["events"]
+                    .as_array()
+                    .cloned()
+                    .unwrap_or_default()
+                    .iter()
+                    .map(|e| Event {
+                        EventLevel: expand(&e["level"]),
+                        Message: expand(&e["message"]),
+                        Version: expand(&e["version"]),
+                        TaskName: expand(&e["task"]),
+                        EventPid: expand(&e["pid"]),
+                        EventTid: expand(&e["tid"]),
+                        OperationId: expand(&e["op"]),
+                        TimeStamp: expand(&e["ts"]),
+                    })
+                    .collect();
+                misc_helpers::json_write_to_file(&events, &path).expect("json_write_to_file");
+            }
+            written.push(f["name"].as_str().unwrap().to_string());
+        }
+        let before = list_dir(&events_dir);
+        {
+            let mut st = STATE.lock().unwrap();
+            *st = CaseState::default();
+            st.id = id.clone();
+            st.out_dir = out_dir.clone();
+            st.replies = case["replies"].as_array().map(|a| a.iter().map(|x| x.as_str().unwrap_or("ok").to_string()).collect()).unwrap_or_default();
+            st.default_reply = case["default_reply"].as_str().unwrap_or("ok").to_string();
+            st.post_limit = case["post_limit"].as_u64().unwrap_or(200) as usize;
+            st.started = Some(std::time::Instant::now());
+        }
+        let dir = events_dir.clone();
+        let run = std::panic::catch_unwind(std::panic::AssertUnwindSafe(|| {
+            let rt = tokio::runtime::Builder::new_current_thread()
+                .enable_all()
+                .start_paused(true)
+                .build()
+                .unwrap();
+            let virt = rt.block_on(async move {
+                let token = CancellationToken::new();
+                STATE.lock().unwrap().token = Some(token.clone());
+                let reader = EventReader::new(
+                    dir,
+                    false,
+                    token,
+                    KeyKeeperSharedState::start_new(),
+                    TelemetrySharedState::start_new(),
+                    AgentStatusSharedState::start_new(),
+                );
+                let v0 = tokio::time::Instant::now();
+                reader.start(Some(Duration::from_secs(300)), None, None).await;
+                v0.elapsed().as_millis() as u64
+            });
+            drop(rt);
+            virt
+        }));
+        let (virt, panicked) = match run {
+            Ok(v) => (v, false),
+            Err(_) => (0, true),
+        };
+        let remaining = list_dir(&events_dir);
+        let line = {
+            let mut st = STATE.lock().unwrap();
+            st.started = None;
+            st.token = None;
+            json!({"case": id, "written": written, "before": before, "remaining": remaining,
+                "posts": st.posts, "reason": if panicked { "panic".to_string() } else { st.reason.clone() },
+                "terminated": !panicked && st.reason == "pass-complete",
+                "virtual_ms": virt, "goalstate_gets": st.goalstate_gets, "config_gets": st.config_gets,
+                "imds_gets": st.imds_gets, "other": st.other})
+        };
+        write_result(&line);
+    }
+    let _ = std::fs::remove_dir_all(&events_dir);
+    0
 }
